@@ -76,7 +76,17 @@ var (
 	switches  int
 	deadlock  bool
 	inSetup   bool // Run is re-initialising the program's packages
+	activity  int  // counts everything the running task does that the simulator sees (steps, events, operations begun)
 )
+
+var traceOn = os.Getenv("VERIF_TASKTRACE") != ""
+
+func trace(format string, a ...interface{}) {
+	if traceOn {
+		fmt.Fprintf(os.Stderr, "[task %d ep %d t %d] ", cur.id, epoch, ticks)
+		fmt.Fprintf(os.Stderr, format+"\n", a...)
+	}
+}
 
 func resetTasks() {
 	mainTask = &task{id: 0, wake: make(chan struct{}, 1), idleEpoch: -1, exited: make(chan struct{})}
@@ -111,6 +121,7 @@ func quantum() int {
 
 // Go starts f as a task.
 func Go(f func()) {
+	activity++
 	if dead || !(running || inSetup) {
 		// the run is over, or this is the process's own package initialisation (which every
 		// run repeats under the simulator): nothing starts
@@ -129,7 +140,7 @@ func Go(f func()) {
 		if dead {
 			return
 		}
-		t.resumedAt = ticks
+		t.resumedAt = activity
 		defer func() {
 			if r := recover(); r != nil {
 				// a panic in a goroutine kills a Go program
@@ -201,23 +212,26 @@ func switchTo(next *task) {
 	}
 	switches++
 	noteProgress(me)
+	trace("switch to %d", next.id)
 	cur = next
 	next.wake <- struct{}{}
 	<-me.wake
 	if dead {
 		runtime.Goexit()
 	}
-	me.resumedAt = ticks
+	me.resumedAt = activity
 }
 
-// noteProgress: a task that executed any step since it got the baton may have changed what
+// noteProgress: a task that did anything the simulator saw since it got the baton (a step, an
+// event, the start of another operation — retrying the same blocked operation is none of these)
+// may have changed what
 // others wait for by means the simulator does not see (close(ch), an atomic store, a plain
 // variable): everybody blocked gets another try. A task that only retried its own blocked
 // operation and failed has changed nothing — that is what keeps deadlocks detectable.
 func noteProgress(t *task) {
-	if ticks != t.resumedAt {
+	if activity != t.resumedAt {
 		epoch++
-		t.resumedAt = ticks
+		t.resumedAt = activity
 	}
 }
 
@@ -226,6 +240,7 @@ func noteProgress(t *task) {
 // one task these are the places where an interleaving matters most, so the schedule may
 // switch there regardless of the slice.
 func seamPoint() {
+	activity++
 	if !running || dead || len(tasks) < 2 {
 		return
 	}
@@ -264,6 +279,7 @@ func YieldBlocked() {
 	me := cur
 	noteProgress(me)
 	me.idleEpoch = epoch
+	trace("blocked")
 	for {
 		if len(timers) > 0 {
 			fireDue()
@@ -328,6 +344,11 @@ func reportDeadlock() {
 }
 
 func reportDeadlockNoExit() {
+	if traceOn {
+		for _, t := range tasks {
+			trace("deadlock: task %d idleEpoch %d until %d matched %v waitCh %x", t.id, t.idleEpoch, t.until, t.matched, t.waitCh)
+		}
+	}
 	if !deadlock {
 		deadlock = true
 		record("PANIC", "all goroutines are asleep - deadlock", 0)
@@ -365,6 +386,7 @@ func endRunFrom(t *task) {
 
 // Gosched stands in for runtime.Gosched(): let somebody else run, if anybody can.
 func Gosched() {
+	activity++
 	if !running || dead || len(tasks) < 2 {
 		return
 	}
@@ -490,6 +512,7 @@ func (t *Timer) Reset(d time.Duration) bool {
 
 // sleepFor is time.Sleep and the think time before a read of standard input.
 func sleepFor(ms int64) {
+	activity++
 	if ms <= 0 {
 		return
 	}
@@ -514,6 +537,7 @@ func chanID(ch interface{}) uintptr { return reflect.ValueOf(ch).Pointer() }
 
 // Recv2 is `v, ok := <-ch`.
 func Recv2[T any](ch <-chan T) (T, bool) {
+	activity++
 	if ch == nil {
 		for {
 			YieldBlocked() // a receive from a nil channel blocks forever
@@ -564,6 +588,7 @@ func Recv[T any](ch <-chan T) T {
 
 // Send is `ch <- v`.
 func Send[T any](ch chan<- T, v T) {
+	activity++
 	if ch == nil {
 		for {
 			YieldBlocked()
@@ -641,15 +666,17 @@ func RWRLock(m *sync.RWMutex) {
 }
 func RWRUnlock(m *sync.RWMutex) { m.RUnlock(); epoch++; seamPoint() }
 
-func WGAdd(wg *sync.WaitGroup, n int) { wgCount[wg] += n; epoch++ }
-func WGDone(wg *sync.WaitGroup)       { wgCount[wg]--; epoch++ }
+func WGAdd(wg *sync.WaitGroup, n int) { wgCount[wg] += n; epoch++; activity++ }
+func WGDone(wg *sync.WaitGroup)       { wgCount[wg]--; epoch++; activity++ }
 func WGWait(wg *sync.WaitGroup) {
+	activity++
 	for wgCount[wg] > 0 {
 		YieldBlocked()
 	}
 }
 
 func OnceDo(o *sync.Once, f func()) {
+	activity++
 	for {
 		switch onceState[o] {
 		case 2:
